@@ -310,3 +310,186 @@ def checkpoints(ex, speculative=False):
             seen.add(key)
             out.append((key, msg))
     return out
+
+
+def crit_holds(stop, snap, max_failures):
+    """Independent reading of the StoppingCriterion docs: 'stop once MORE than this number ...'."""
+    if snap["failed"] > max_failures:
+        return True
+    for k, v in stop.items():
+        if k == "max_wallclock_time" and snap["wallclock"] > v:
+            return True
+        if k == "max_num_trials_started" and snap["started"] > v:
+            return True
+        if k == "max_num_trials_completed" and snap["completed"] > v:
+            return True
+        if k == "max_num_trials_finished" and snap["finished"] > v:
+            return True
+        if k == "max_num_evaluations" and snap["evals"] > v:
+            return True
+        if k == "max_cost" and snap["cost"] > v:
+            return True
+        if k == "max_metric_value" and snap["evals"] > 0:
+            for m, thr in v.items():
+                if m in snap["max"] and snap["max"][m] > thr:
+                    return True
+        if k == "min_metric_value" and snap["evals"] > 0:
+            for m, thr in v.items():
+                if m in snap["min"] and snap["min"][m] < thr:
+                    return True
+    return False
+
+
+def termination(ex, cfg):
+    """C12: ends at the end of the first iteration after which the criterion holds; nothing started afterwards; bounded
+    overshoot; after run(): nothing running, stop_all + on_tuning_end called, counters equal ground truth."""
+    from .backends import ALIVE
+    v = []
+    log = ex.log
+    stop = cfg["stop"]
+    W = cfg["W"]
+    wait = cfg.get("wait", False)
+    max_failures = cfg.get("max_failures", 5)
+    first_hold = None
+    loops = 0
+    n_tuning_end = 0
+    stop_all_seen = False
+    started = set()
+    killed_by_stop_all = []
+    in_stop_all = False
+    alive = set()
+    for e in log:
+        k = e[0]
+        if k == "loop_start":
+            loops = e[1]
+            if first_hold is not None and not wait:
+                v.append(("termination:loop-continues-after-criterion", f"criterion held at the end of iteration {first_hold}, "
+                                                                        f"iteration {loops} started nevertheless"))
+            if first_hold is not None and wait and not alive:
+                pass
+        elif k == "loop_end":
+            snap = e[2]
+            if snap is not None and first_hold is None and crit_holds(stop, snap, max_failures):
+                first_hold = e[1]
+        elif k == "schedule":
+            if first_hold is not None:
+                v.append(("termination:start-after-criterion", f"trial {e[1]} (run {e[2]}) started in a later iteration than {first_hold}, "
+                                                               f"at whose end the stopping criterion already held"))
+            if in_stop_all:
+                v.append(("termination:start-during-shutdown", f"trial {e[1]} started after stop_all"))
+            started.add(e[1])
+            alive.add(e[1])
+        elif k in ("exit", "crash", "ext_stop", "pause"):
+            alive.discard(e[1])
+        elif k == "stop":
+            if in_stop_all and e[1] in alive:
+                killed_by_stop_all.append(e[1])
+            alive.discard(e[1])
+        elif k == "stop_all":
+            stop_all_seen = True
+            in_stop_all = True
+        elif k == "tuning_end":
+            n_tuning_end += 1
+    exc = ex.exc
+    expected_exc = cfg.get("expect_exc") if any(e[0] == "injected" for e in log) else None
+    if exc is not None and exc[0] == "LoopCap" and first_hold is None:
+        pass  # horizon reached while the criterion never held: nothing to judge
+    elif exc is not None and exc[0] == "LoopCap":
+        v.append(("termination:does-not-terminate", f"loop still running after {loops} iterations (criterion first held at {first_hold})"))
+    elif exc is not None and not (expected_exc and exc[0] == expected_exc):
+        if not (exc[0] == "ValueError" and ("no metrics got observed" in exc[2] or " failed" in exc[2])):
+            v.append((f"exc:{exc[0]}@{exc[1]}", f"{exc[0]} escaped Tuner.run at {exc[1]}: {exc[2]}"))
+    elif exc is None and expected_exc:
+        v.append(("termination:injected-exception-swallowed", f"the scheduler raised {expected_exc} but Tuner.run returned normally"))
+    if exc is None and first_hold is None and not any(e[0] == "suggest" and e[1] is None for e in log):
+        v.append(("termination:ended-before-criterion", f"Tuner.run returned after {loops} iterations although the stopping criterion "
+                                                        f"{stop} never held and the search space was not exhausted"))
+    # after run() returned or raised
+    still = [t for t, p in ex.backend.proc.items() if p == ALIVE]
+    if still:
+        v.append(("termination:trials-left-running", f"jobs of trials {still} are still alive after Tuner.run ended ({'exception ' + exc[0] if exc else 'normal'})"))
+    if not stop_all_seen:
+        v.append(("termination:stop_all-not-called", "trial_backend.stop_all was not called"))
+    if n_tuning_end != 1:
+        v.append((f"termination:on_tuning_end-called-{n_tuning_end}-times", "callbacks' on_tuning_end must run exactly once"))
+    if wait and exc is None and killed_by_stop_all and first_hold is not None:
+        v.append(("termination:wait-mode-killed-running-trials", f"wait_trial_completion_when_stopping: trials {killed_by_stop_all} were still "
+                                                                 f"running and killed at shutdown"))
+    if exc is None and len(stop) == 1 and "max_num_trials_started" in stop:
+        if len(started) > stop["max_num_trials_started"] + W:
+            v.append(("termination:budget-overshoot", f"{len(started)} trials started, budget {stop['max_num_trials_started']} + n_workers {W}"))
+    # counters vs ground truth
+    ts = ex.tuner.tuning_status
+    if ts is not None:
+        truth = final_status_sets(ex)
+        seen = dict(ts.last_trial_status_seen)
+        if exc is not None:
+            # trials started in the iteration that raised may not have reached the status object
+            last_ls = max([i for i, e in enumerate(log) if e[0] == "loop_start"] or [0])
+            late = {e[1] for i, e in enumerate(log) if i > last_ls and e[0] == "schedule" and e[2] == 0}
+            truth = {t: s for t, s in truth.items() if t in seen or t not in late}
+            touched = {e[1] for i, e in enumerate(log) if i > last_ls and e[0] in ("pause", "stop", "exit", "crash", "ext_stop", "schedule", "resume")}
+            truth = {t: (s | {"Stopped"} if t in touched else s) for t, s in truth.items()}
+        if set(seen) != set(truth):
+            v.append(("status:trials-unknown-to-status", f"tuning status knows trials {sorted(seen)}, backend started {sorted(truth)}"))
+        else:
+            bad = {t: (seen[t], sorted(truth[t])) for t in seen if seen[t] not in truth[t]}
+            if bad:
+                t0 = sorted(bad)[0]
+                v.append((f"status:final-status-{bad[t0][0]}-truth-{'/'.join(bad[t0][1])}",
+                          f"final status of trials differs from what happened: {bad}"))
+        if ts.num_trials_started != len(truth):
+            v.append(("status:num-started", f"num_trials_started={ts.num_trials_started}, {len(truth)} trials were started"))
+        for name, stset in (("num_trials_completed", {"Completed"}), ("num_trials_failed", {"Failed"}),
+                            ("num_trials_finished", {"Completed", "Stopped", "Stopping", "Failed"})):
+            got = getattr(ts, name)
+            lo = sum(1 for t in truth if truth[t] <= stset)
+            hi = sum(1 for t in truth if truth[t] & stset)
+            if not (lo <= got <= hi):
+                v.append((f"status:{name}", f"{name}={got}, ground truth between {lo} and {hi}"))
+    store = ex.extra.get("store")
+    if store is not None and exc is None or (store is not None and expected_exc):
+        n_rows = len(store.results)
+        n_del = sum(1 for e in log if e[0] == "on_trial_result")
+        path = getattr(store, "csv_file", None)
+        import os
+        if path is not None and not os.path.exists(str(path)):
+            v.append(("termination:final-results-not-stored", f"results file {path} missing after run()"))
+        elif path is not None:
+            import pandas as pd
+            try:
+                n_file = len(pd.read_csv(path))
+            except Exception:
+                n_file = 0 if n_rows == 0 else -1
+            if n_file != n_rows or n_rows != n_del:
+                v.append(("termination:final-results-not-stored", f"{n_del} results delivered, {n_rows} rows in memory, {n_file} rows on disk"))
+    ex.first_hold = first_hold
+    out, seen_k = [], set()
+    for key, msg in v:
+        if key not in seen_k:
+            seen_k.add(key)
+            out.append((key, msg))
+    return out
+
+
+def final_status_sets(ex):
+    """trial -> set of final statuses consistent with what happened (ground truth + tuner-visible overrides)."""
+    log = ex.log
+    st = {}
+    last_poll_idx = max([i for i, e in enumerate(log) if e[0] == "poll"] or [-1])
+    for i, e in enumerate(log):
+        k = e[0]
+        if k == "schedule":
+            st[e[1]] = {"InProgress"}
+        elif k == "pause":
+            st[e[1]] = {"Paused"}
+        elif k == "stop":
+            st[e[1]] = {"Stopped"}
+        elif k == "exit":
+            st[e[1]] = {"Completed"} if not (ex.exc is not None and i > last_poll_idx) else {"Completed", "Stopped", "InProgress"}
+        elif k == "crash":
+            st[e[1]] = {"Failed"} if not (ex.exc is not None and i > last_poll_idx) else {"Failed", "Stopped", "InProgress"}
+        elif k == "ext_stop":
+            st[e[1]] = {"Stopped"}
+    # run() marks what it believes to be running as stopped
+    return {t: ({"Stopped"} if s == {"InProgress"} else (s - {"InProgress"}) | ({"Stopped"} if "InProgress" in s else set())) for t, s in st.items()}
